@@ -12,8 +12,9 @@ ERR = 'src/commons/error.rs'
 def common(U, skip=()):
     prelude.hashmap(U)
     prelude.strings(U)
-    for t in ['CaHandle', 'ChildHandle', 'IdCertInfo']:
+    for t in ['CaHandle', 'ChildHandle']:
         U.opaque(t, 'Clone')
+    U.opaque('IdCertInfo', 'Clone, PartialEq, Eq')
     for t in ['Rfc8183Id', 'RepositoryContact', 'ParentCaContact', 'ResourceClass', 'Routes', 'Rtas', 'AspaDefinitions', 'BgpSecDefinitions',
               'ChildState', 'UsedKeyState']:
         if t not in skip:
@@ -50,7 +51,15 @@ def build():
     common(U)
     U.struct(CA, 'CertAuth', derive=[])
     U.struct(CH, 'ChildDetails', derive=[])
-    U.enum(EV, 'CertAuthEvent', keep=['ChildAdded', 'ChildUpdatedResources'], derive=[])
+    U.enum(EV, 'CertAuthEvent', keep=['ChildAdded', 'ChildUpdatedResources', 'ChildUpdatedIdCert'], derive=[])
+    U.add('''
+/// ASSUMED: `!=` on identity certificates is value (in)equality (derived PartialEq in krill)
+impl vstd::std_specs::cmp::PartialEqSpecImpl for IdCertInfo {
+    open spec fn obeys_eq_spec() -> bool { true }
+    open spec fn eq_spec(&self, other: &IdCertInfo) -> bool { *self == *other }
+}
+pub assume_specification [<IdCertInfo as PartialEq>::eq] (a: &IdCertInfo, b: &IdCertInfo) -> (r: bool);
+''')
     U.enum(ERR, 'Error', keep=['CaChildMustHaveResources', 'CaChildExtraResources', 'CaChildDuplicate', 'CaChildUnknown'], derive=[])
     km = 'obeys_key_model::<ChildHandle>()'
     U.impl('impl CertAuth', [
@@ -67,5 +76,12 @@ def build():
             ('replayable_names_only_a_known_child', 'r is Ok ==> self.children@.contains_key(*child_handle)'),
             ('event_or_noop', '''r is Ok ==> (if rs_is_empty(rs_difference(resources, self.children@[*child_handle].resources)) { r->Ok_0@.len() == 0 }
                 else { r->Ok_0@ == seq![CertAuthEvent::ChildUpdatedResources { child: *child_handle, resources }] })''')]),
+        # C12: a new identity certificate for a child is recorded for THAT child whenever it differs from the registered one (so that
+        # from then on requests are validated against it, units c06_apply / c12_rfc6492); an unknown child is refused
+        U.fn(CA, 'CertAuth', 'process_child_update_id_cert', requires=[('key_model', km)], ensures=[
+            ('refused_exactly_for_an_unknown_child', '(r is Ok) <==> self.children@.contains_key(*child_handle)'),
+            ('a_different_certificate_is_recorded_for_that_child', '''r is Ok && id_cert != self.children@[*child_handle].id_cert ==>
+                    r->Ok_0@ == seq![CertAuthEvent::ChildUpdatedIdCert { child: *child_handle, id_cert }]'''),
+            ('the_same_certificate_leaves_no_trace', 'r is Ok && id_cert == self.children@[*child_handle].id_cert ==> r->Ok_0@.len() == 0')]),
     ])
     return U
